@@ -1168,10 +1168,7 @@ class Color(object):
     @staticmethod
     def hsl_to_int(h, s, l, opacity=1.0):
         def hue_2_rgb(v1, v2, vh):
-            if vh < 0:
-                vh += 1
-            if vh > 1:
-                vh -= 1
+            vh = vh % 1.0
             if 6.0 * vh < 1.0:
                 return v1 + (v2 - v1) * 6.0 * vh
             if 2.0 * vh < 1:
